@@ -5,6 +5,29 @@
 
 package program
 
+// resource descriptors and the machine.Type of the value a descriptor resolves to (vm.ResolveResources keeps the type)
+//@ def isRes(r) = typeis(r, "program.Constant") || typeis(r, "program.Variable") || typeis(r, "program.VariableAccountMetadata") || typeis(r, "program.VariableAccountBalance") || typeis(r, "program.Monetary")
+//@ def resType(r) = ite(typeis(r, "program.Constant"), valType(as(r, "program.Constant").Inner), ite(typeis(r, "program.Variable"), as(r, "program.Variable").Typ, ite(typeis(r, "program.VariableAccountMetadata"), as(r, "program.VariableAccountMetadata").Typ, ite(typeis(r, "program.VariableAccountBalance"), 5, ite(typeis(r, "program.Monetary"), 5, valType(r))))))
+
+// machine.Value and program.Resource have the same method set (GetType), so each type implements both
+//@ iface program.Resource.GetType
+//@   implementers
+//@   property C12 C08 C01 C02
+//@   pure
+//@   ensures ret == resType(recv)
+//@ iface machine.Value.GetType
+//@   implementers
+//@   property C12 C08 C01 C02
+//@   pure
+//@   ensures ret == resType(recv)
+// a constant wraps a machine value, never another resource descriptor
+// (a well-formed one: numbers and amounts present; a monetary without an amount only arises from a balance() variable)
+//@ typeinv program.Constant: machVal(self.Inner) // C12 C08 C01 C02
+
+
+// a monetary literal of a program always has an amount
+//@ typeinv program.Monetary: self.Amount != nil // C12 C01
+
 //@ func program.OpcodeName
 //@   pure
 
@@ -12,5 +35,11 @@ package program
 //@   pure
 
 // parsing the variables of a request only builds a fresh map and (as upstream does) consumes the caller's map
+// (C01 / C12: every variable it returns is a well-formed machine value of the declared type)
 //@ func (*program.Program).ParseVariablesJSON
+//@   requires p != nil
+//@   ensures err == nil ==> ret0 != nil && (forall n0 string :: has(ret0, n0) ==> machVal(ret0[n0])) // C01 C12
+//@   loop 1 invariant 0 - 1 <= rangeindex && rangeindex < len(p.Resources) && variables != nil
+//@   loop 1 invariant forall n1 string :: has(variables, n1) ==> machVal(variables[n1])
 //@   modifies map[string]string, map[string]machine.Value
+//@   property C01 C12
